@@ -23,6 +23,7 @@
 import TypedpyModel.Lemmas.Alias
 import TypedpyModel.Spec.AliasScope
 import TypedpyModel.Generated.Aliasing
+import TypedpyModel.Generated.AliasApi
 import TypedpyModel.Pinned.Aliasing
 namespace Typedpy.C19
 open Typedpy.Alias
@@ -246,6 +247,22 @@ theorem safeShape_of_sites (tbl : List AliasRow) (op : OpK) :
     simp only [sitesOf, List.all_cons] at h
     have h' := and_true_split h
     simp only [safeShape, modeOf_copies h'.1, safeShape_of_sites tbl op s h'.2, Bool.and_self]
+  | .wrapN k p opts, h => by
+    simp only [sitesOf, List.all_cons] at h
+    have h' := and_true_split h
+    simp only [safeShape, modeOf_copies h'.1, safeOpts_of_sites tbl op k opts h'.2, Bool.and_self]
+  | .owned s, h => by
+    simp only [sitesOf] at h
+    simp only [safeShape, safeShape_of_sites tbl op s h]
+theorem safeOpts_of_sites (tbl : List AliasRow) (op : OpK) (k : Kind) :
+    (opts : List Shape) → (sitesOfOpts k opts).all (siteOk tbl op) = true → safeOpts (modeOf tbl op) k opts = true
+  | [], _ => by simp [safeOpts]
+  | s :: rest, h => by
+    simp only [sitesOfOpts, List.all_cons] at h
+    have h' := and_true_split h
+    have h'' := all_append h'.2
+    simp only [safeOpts, modeOf_copies h'.1, safeShape_of_sites tbl op s h''.1, safeOpts_of_sites tbl op k rest h''.2,
+      Bool.and_self]
 theorem safeFields_of_sites (tbl : List AliasRow) (op : OpK) :
     (fs : List (String × Shape)) → (sitesOfFields fs).all (siteOk tbl op) = true → safeFields (modeOf tbl op) fs = true
   | [], _ => by simp [safeFields]
@@ -526,6 +543,180 @@ theorem C19_example :
      | (h', some res) => sameBelow 7 exampleHeap h' && (reachList 6 h' res).all (fun a => decide (7 ≤ a))
                           && (reachList 6 h' res).length == 7
      | _ => false) = true := by
+  decide +kernel
+
+/-! ## part 8 — every public entry point is accounted for -/
+
+/-- obligation re-checked against the public API introspected from /repo on every run: a new public function,
+    method of an entry-point class or non-field class without a row in `apiRows` breaks it -/
+theorem api_covered : apiCovered Generated.publicApi = true := by
+  decide +kernel
+
+/-- every row that claims coverage is backed by an executable probe / operation stream of the suite -/
+theorem api_rows_probed : apiRowsProbed Generated.apiProbed = true := by
+  decide +kernel
+
+/-- the operations the entry points map to have rows in today's table and none of them edits an argument -/
+theorem api_ops_in_table : apiOpsInTable Generated.aliasing = true := by
+  decide +kernel
+
+/-- non-vacuity: the coverage predicate rejects an API with one more public function -/
+theorem api_covered_example :
+    apiCovered (("brand_new_public_function", "function") :: Generated.publicApi) = false ∧
+    apiCovered [("serialize", "function"), ("Array", "field")] = true := by
+  decide +kernel
+
+/-! ## part 9 — immutable owners and the choice of a multi-field wrapper's option -/
+
+/-- both separation clauses follow from "the result lies in the region the walk allocated" alone -/
+theorem holds_of_fresh_result {h h' : Heap} {res : Item} (fr : Frame h h')
+    (fs : NewClosed h.next h' ∧ ItemIn h.next h' res) :
+    (∀ acts, AdmissibleAll h' (roots res) acts →
+      ∀ a, a < h.next → (runScript h' (roots res) acts).1.cells a = h.cells a) ∧
+    (ClosedBelow h.next h → ∀ K, (∀ x, x ∈ K → x < h.next) → ∀ acts, AdmissibleAll h' K acts →
+      ∀ n, observeN n (runScript h' K acts).1 res = observeN n h' res) := by
+  constructor
+  · intro acts adm a ha
+    have held : ∀ b, Held h' (roots res) b → h.next ≤ b ∧ b < h'.next := by
+      intro b hb
+      obtain ⟨r, hr, rb⟩ := hb
+      cases res with
+      | atom v => simp [roots] at hr
+      | ref x =>
+        simp only [roots, List.mem_singleton] at hr
+        subst hr
+        exact reach_new fs.1 (fs.2 r rfl) rb
+    have sp := script_protects (fun a => a < h.next) acts h' (roots res)
+      (fun a ha hlt => absurd hlt (Nat.not_lt.mpr (held a ha).1))
+      (fun a ha => Nat.lt_of_lt_of_le ha fr.1) adm
+    rw [sp.1 a ha, fr.2 a ha]
+  · intro cb K hK acts adm n
+    have cb' := closedBelow_frame cb fr
+    have sp := script_protects (fun a => h.next ≤ a ∧ a < h'.next) acts h' K
+      (by
+        intro a ha hp
+        obtain ⟨r, hr, rb⟩ := ha
+        exact absurd (reach_below cb' (hK r hr) rb) (Nat.not_lt.mpr hp.1))
+      (fun a ha => ha.2) adm
+    apply observe_agree (fun a => h.next ≤ a ∧ a < h'.next)
+      (fun a ha => sp.1 a ha) (fun a ha k hk => fs.1 a ha.1 ha.2 k hk) n
+    intro a ea
+    exact fs.2 a ea
+
+/-- what C19 says about a field of an immutable owner given a value that is not one of the exempt immutable
+    kinds (scalars, typed wrappers, ImmutableStructure instances) -/
+def OwnerHoldsFor (tbl : List AliasRow) (op : OpK) (s : Shape) : Prop :=
+  ∀ (fuel : Nat) (h : Heap) (src : Item) (h' : Heap) (r : Option Item), ownerExempt h src = false →
+    transfer (modeOf tbl op) fuel (.owned s) h src = (h', r) →
+    (∀ a, a < h.next → h'.cells a = h.cells a) ∧
+    ∀ res, r = some res →
+      (∀ acts, AdmissibleAll h' (roots res) acts →
+        ∀ a, a < h.next → (runScript h' (roots res) acts).1.cells a = h.cells a) ∧
+      (ClosedBelow h.next h → ∀ K, (∀ x, x ∈ K → x < h.next) → ∀ acts, AdmissibleAll h' K acts →
+        ∀ n, observeN n (runScript h' K acts).1 res = observeN n h' res)
+
+/-- **immutable owners**: for ANY table whose owner row copies — whatever the rows of the field below say
+    (`Anything` keeping the object, `OneOf` storing the original, a `return value` short cut …) and for EVERY
+    declaration — the value an immutable owner keeps / hands out is separate from the caller's: deep copy in,
+    deep copy out, with the separation theorem -/
+theorem immutable_owner_holds (tbl : List AliasRow) (op : OpK) (s : Shape)
+    (hm : (modeOf tbl op .owner .none).ownerCopies = true) : OwnerHoldsFor tbl op s := by
+  intro fuel h src h' r hx e
+  have fr := transfer_frame (modeOf tbl op) fuel (.owned s) h src h' r e
+  refine ⟨fr.2, ?_⟩
+  intro res hr
+  subst hr
+  exact holds_of_fresh_result fr
+    (owned_fresh h.next (modeOf tbl op) fuel s hm h src hx h' res (Nat.le_refl _) (newClosed_init h) e)
+
+def ownerOps : List OpK := [.construct, .setattr, .deserialize, .serialize, .fieldSerialize, .fastSerialize]
+
+/-- today's table: for every operation the owner row exists, the source reading (`deepcopy(` under the
+    IS_IMMUTABLE tests of `Structure.__setattr__`, `Field.__set__`, `Field.__get__`) agrees with the witness, and
+    the owner copies -/
+theorem owner_rows_copy_today :
+    ownerOps.all (fun op =>
+      (modeOf Generated.aliasing op .owner .none).ownerCopies &&
+      (match lookupRow Generated.aliasing op .owner .none with
+       | some r => r.agree && r.astMode == "deep" && !r.argMutated
+       | none => false)) = true := by
+  decide +kernel
+
+theorem immutable_owner_today (op : OpK) (hop : op ∈ ownerOps) (s : Shape) :
+    OwnerHoldsFor Generated.aliasing op s := by
+  apply immutable_owner_holds
+  have h := owner_rows_copy_today
+  rw [List.all_eq_true] at h
+  exact (and_true_split (h op hop)).1
+
+/-- the choice function of a multi-field wrapper picks the FIRST option the value fits -/
+theorem firstFit_spec (h : Heap) (i : Item) : ∀ (opts : List Shape),
+    (∀ j s, j < firstFitIdx h i opts → opts[j]? = some s → fits s h i = false) ∧
+    (∀ s, opts[firstFitIdx h i opts]? = some s → fits s h i = true)
+  | [] => ⟨fun j s hj => by simp [firstFitIdx] at hj, fun s e => by simp [firstFitIdx] at e⟩
+  | o :: rest => by
+    have ih := firstFit_spec h i rest
+    cases hf : fits o h i with
+    | true =>
+      simp only [firstFitIdx, hf, if_true]
+      refine ⟨fun j s hj => by omega, ?_⟩
+      intro s e
+      simp only [List.getElem?_cons_zero, Option.some.injEq] at e
+      rw [← e]; exact hf
+    | false =>
+      simp only [firstFitIdx, hf, Bool.false_eq_true, if_false]
+      constructor
+      · intro j s hj e
+        cases j with
+        | zero =>
+          simp only [List.getElem?_cons_zero, Option.some.injEq] at e
+          rw [← e]; exact hf
+        | succ j =>
+          simp only [List.getElem?_cons_succ] at e
+          exact ih.1 j s (by omega) e
+      · intro s e
+        simp only [List.getElem?_cons_succ] at e
+        exact ih.2 s e
+
+/-- `AnyOf[Array[Integer], Map[String, Array[Integer]], String]` with ALL its options, as the element of an
+    Array, as a Map value and on its own, plus `Optional[Map | Array]`: admitted under construction, the Serializer
+    and the Deserializer — whichever option each value takes, the statement holds -/
+def anyOpts : Shape :=
+  .wrapN .anyOf .firstFit [.coll .array (.scalar .number), .coll .map (.coll .array (.scalar .number)), .scalar .string]
+
+def hetShape : Shape :=
+  .keyed .root [("xs", .coll .array anyOpts), ("one", anyOpts), ("m", .coll .map anyOpts),
+                ("opt", .wrapN .anyOf .firstFit [.scalar .scalar, .coll .map (.coll .array (.scalar .number)),
+                                                .coll .array (.scalar .number)])]
+
+theorem anyOf_all_options_today :
+    HoldsFor Generated.aliasing .construct hetShape ∧ HoldsFor Generated.aliasing .serialize hetShape ∧
+    HoldsFor Generated.aliasing .deserialize hetShape :=
+  ⟨C19_today _ _ (by decide +kernel), C19_today _ _ (by decide +kernel), C19_today _ _ (by decide +kernel)⟩
+
+/-- cell 0: kwargs {xs: cell 1}; cell 1: [cell 2 (a list), cell 3 (a dict), "s"]; cell 4: the list inside the dict -/
+def hetHeap : Heap := Heap.ofList [
+  ⟨"dict", [("xs", .ref 1)]⟩,
+  ⟨"list", [("0", .ref 2), ("1", .ref 3), ("2", .atom 4)]⟩,
+  ⟨"list", [("0", .atom 2)]⟩, ⟨"dict", [("k", .ref 4)]⟩, ⟨"list", [("0", .atom 2)]⟩]
+
+def oneOpts : Shape :=
+  .wrapN .oneOf .firstFit [.coll .array (.scalar .number), .coll .map (.coll .array (.scalar .number)), .scalar .string]
+
+/-- non-vacuity, kernel-evaluated on today's table: the elements of ONE list take different options of
+    `OneOf[Array, Map, String]` (the list the first, the dict the second, the string the third); under construction
+    today's OneOf keeps both containers (cells 2 and 3, and cell 4 below the dict) — and the very same declaration owned by
+    an ImmutableStructure keeps nothing of the caller's (7 fresh cells: the copy and what the fields rebuilt from it) -/
+theorem wrapN_owned_example :
+    (match transfer (modeOf Generated.aliasing .construct) 9 (.keyed .root [("xs", .coll .array oneOpts)]) hetHeap (.ref 0) with
+     | (h', some res) => sameBelow 5 hetHeap h' && (reachList 6 h' res).contains 2 && (reachList 6 h' res).contains 3
+                          && (reachList 6 h' res).contains 4 && !(reachList 6 h' res).contains 1
+     | _ => false) = true ∧
+    (match transfer (modeOf Generated.aliasing .construct) 9 (.keyed .root [("xs", .owned (.coll .array oneOpts))]) hetHeap (.ref 0) with
+     | (h', some res) => sameBelow 5 hetHeap h' && (reachList 6 h' res).all (fun a => decide (5 ≤ a))
+     | _ => false) = true ∧
+    pickIdx .firstFit [.coll .array (.scalar .number), .coll .map .untyped, .scalar .string] hetHeap (.ref 3) = 1 ∧
+    pickIdx (.fixed 2) [.coll .array (.scalar .number), .coll .map .untyped, .scalar .string] hetHeap (.ref 3) = 3 := by
   decide +kernel
 
 end Typedpy.C19
